@@ -34,7 +34,7 @@ use libhaystack::c_api::zinc::*;
 use libhaystack::c_api::ResultType;
 use libhaystack::encoding::zinc::decode::from_str as zinc_from_str;
 use libhaystack::encoding::zinc::encode::to_zinc_string;
-use libhaystack::filter::{Filter, Filtered, ListFiltered};
+use libhaystack::filter::{Filter, Filtered};
 use libhaystack::timezone::make_date_time_with_tz;
 use libhaystack::units::get_unit;
 use libhaystack::val::*;
@@ -43,7 +43,7 @@ use std::ffi::{c_char, CStr, CString};
 use std::sync::mpsc::{channel, Receiver, Sender};
 use std::sync::{Arc, Mutex};
 
-pub const NV: usize = 30; // value handle slots
+pub const NV: usize = 32; // value handle slots
 pub const NS: usize = 4; // returned-string slots
 pub const NF: usize = 3; // filter handle slots
 pub const NB: usize = 3; // borrowed entry pointer slots
@@ -1592,7 +1592,9 @@ impl Sim {
                 let mut new: Option<Value> = None;
                 let exp: i32 = match (f, &filter, self.shadow(subj)) {
                     ("haystack_filter_match_dict", Some(flt), Some(Value::Dict(d))) => d.filter(flt) as i32,
-                    ("haystack_filter_first_match_in_grid", Some(flt), Some(Value::Grid(g))) if matches!(res, HArg::Slot(_)) => match g.filter(flt) {
+                    // the grid functions are modelled through the table they wrap: a grid's matches are
+                    // the rows that match as dicts, in order (not through Grid's own filter methods)
+                    ("haystack_filter_first_match_in_grid", Some(flt), Some(Value::Grid(g))) if matches!(res, HArg::Slot(_)) => match g.rows.iter().find(|d| d.filter(flt)) {
                         Some(d) => {
                             new = Some(Value::Dict(d.clone()));
                             1
@@ -1600,7 +1602,7 @@ impl Sim {
                         None => 0,
                     },
                     ("haystack_filter_match_all_grid", Some(flt), Some(Value::Grid(g))) if matches!(res, HArg::Slot(_)) => {
-                        let rows: Vec<Dict> = g.filter_all(flt).into_iter().cloned().collect();
+                        let rows: Vec<Dict> = g.rows.iter().filter(|d| d.filter(flt)).cloned().collect();
                         let out = match &g.meta {
                             Some(m) => Grid::make_from_dicts_with_meta(rows, m.clone()),
                             None => Grid::make_from_dicts(rows),
